@@ -23,10 +23,13 @@ static ExecResult execute(const Scenario &sc, const std::vector<int> &prefix, co
     Fate f = forked([&] {
         sc.prepare();
         std::vector<std::string> refs(sc.nthreads), outs(sc.nthreads);
-        for (int t = 0; t < sc.nthreads; t++) refs[t] = sc.work(t);
+        // the scheduled threads run FIRST, in a process that has not yet used the library's FFT: lazily built process-wide state is built under the
+        // schedule being explored; the sequential references are computed afterwards (evaluation is history-independent, so the order is immaterial)
         if (sc.before_run) sc.before_run();
         std::vector<std::function<void()>> bodies; for (int t = 0; t < sc.nthreads; t++) bodies.push_back([&, t] { outs[t] = sc.work(t); });
         sched::Trace tr = sched::run(bodies, prefix);
+        if (sc.after_run) sc.after_run();
+        if (!tr.deadlock) for (int t = 0; t < sc.nthreads; t++) refs[t] = sc.work(t);
         std::string verdict;
         if (tr.diverged) verdict = "FRAMEWORK: schedule prefix diverged during replay";
         else if (tr.deadlock) verdict = "deadlock: no enabled thread";
@@ -96,7 +99,7 @@ static void part_hist() {
     bootsSymEncrypt(in, 1, sk); bootsSymEncrypt(in + 1, 0, sk); bootsSymEncrypt(in + 2, 1, sk); bootsSymEncrypt(in80, 1, sk80); bootsSymEncrypt(in80 + 1, 1, sk80);
     { uint64_t x = 3; for (int q = 0; q < 2; q++) { uint32_t b = (uint32_t)gates::MU8; for (int i = 0; i < 3; i++) { tin[q].a[i] = (Torus32)splitmix(x); b += (uint32_t)tin[q].a[i] * (uint32_t)tiny->s->key[i]; } tin[q].b = (Torus32)b; } }
     prep_polys(3, N);
-    auto probe = [&]() { LweSample *r = new_gate_bootstrapping_ciphertext(ps); std::string o; bootsNAND(r, in, in + 1, &sk->cloud); o = lwe_bytes(r, n); bootsMUX(r, in, in + 1, in + 2, &sk->cloud); o += lwe_bytes(r, n); bootsXOR(r, in + 2, in, &sk->cloud); o += lwe_bytes(r, n); delete_gate_bootstrapping_ciphertext(r); return o; };
+    auto probe = [&]() { LweSample *r = new_gate_bootstrapping_ciphertext(ps); std::string o; bootsNAND(r, in, in + 1, &sk->cloud); o = lwe_bytes(r, n); bootsMUX(r, in, in + 1, in + 2, &sk->cloud); o += lwe_bytes(r, n); bootsXOR(r, in + 2, in, &sk->cloud); o += lwe_bytes(r, n); tfhe_bootstrap_FFT(r, sk->cloud.bkFFT, (Torus32)0x12345678, in + 1); o += lwe_bytes(r, n); delete_gate_bootstrapping_ciphertext(r); return o; };
     std::vector<Op> ops = {
         {"NAND128", [&] { LweSample *r = new_gate_bootstrapping_ciphertext(ps); bootsNAND(r, in + 1, in + 2, &sk->cloud); delete_gate_bootstrapping_ciphertext(r); }},
         {"ANDNY128", [&] { LweSample *r = new_gate_bootstrapping_ciphertext(ps); bootsANDNY(r, in + 1, in + 2, &sk->cloud); delete_gate_bootstrapping_ciphertext(r); }},
@@ -104,6 +107,7 @@ static void part_hist() {
         {"NAND80", [&] { LweSample *r = new_gate_bootstrapping_ciphertext(ps80); bootsNAND(r, in80, in80 + 1, &sk80->cloud); delete_gate_bootstrapping_ciphertext(r); }},
         {"XOR80", [&] { LweSample *r = new_gate_bootstrapping_ciphertext(ps80); bootsXOR(r, in80, in80 + 1, &sk80->cloud); delete_gate_bootstrapping_ciphertext(r); }},
         {"MUX80", [&] { LweSample *r = new_gate_bootstrapping_ciphertext(ps80); bootsMUX(r, in80, in80 + 1, in80, &sk80->cloud); delete_gate_bootstrapping_ciphertext(r); }},
+        {"bootstrap-mu=1/4", [&] { LweSample *r = new_gate_bootstrapping_ciphertext(ps); tfhe_bootstrap_FFT(r, sk->cloud.bkFFT, (Torus32)0x40000000, in + 2); delete_gate_bootstrapping_ciphertext(r); }},
         {"NANDtiny-k2", [&] { LweSample *r = new_LweSample(tiny->lp); bootsNAND(r, tin, tin + 1, ckt); delete_LweSample(r); }},
         {"FFTprod-random", [&] { TorusPolynomial *r = new_TorusPolynomial(N); torusPolynomialMultFFT(r, SH().ia[0], SH().tb[0]); delete_TorusPolynomial(r); }},
         {"FFTprod-allmax", [&] { TorusPolynomial *r = new_TorusPolynomial(N), *b = new_TorusPolynomial(N); IntPolynomial *a = new_IntPolynomial(N); for (int i = 0; i < N; i++) { a->coefs[i] = 512; b->coefsT[i] = INT32_MAX; } torusPolynomialMultFFT(r, a, b); delete_TorusPolynomial(r); delete_TorusPolynomial(b); delete_IntPolynomial(a); }},
